@@ -20,7 +20,7 @@ import kgeval
 from common import Evidence, Verdicts, run_tlc, stage_spec, MachineryError
 
 PROP = "C04"
-PRELUDE = ["f1::{[t];t::[1 2 3];t:=x,0}", "g1::{[q];q:::{[1 2]};q,x,,x;#q}", "h1::{[t];t::!4;t:=x,1}"]
+PRELUDE = ["e1::{[a];a::[10 20 30];a@x}", "f1::{[t];t::[1 2 3];t:=x,0}", "g1::{[q];q:::{[1 2]};q,x,,x;#q}", "h1::{[t];t::!4;t:=x,1}"]
 NAMES = ["a", "b", "c", "d", "e"]
 
 
@@ -29,6 +29,8 @@ def render_stmt(s):
         return ".module(:m)"
     if s["k"] == "modout":
         return ".module(0)"
+    if s["k"] == "fail":
+        return s["src"]
     if s["k"] == "assign":
         return f"{s['n']}::{render_expr(s['e'])}"
     return render_expr(s["e"])
@@ -169,6 +171,12 @@ def run(tier, seed):
             bad = None
             sa, sb = snap(A), snap(B)
             ismod = st["stmt"]["k"] in ("modin", "modout")
+            if st["stmt"]["k"] == "fail":
+                # the statement must raise in both interpreters and leave the variable state alone
+                ismod = True
+                notraised = [name for name in ("A", "B") if res[name]["t"] != "exc"]
+                if notraised:
+                    raise MachineryError(f"statement {src} was expected to fail, {notraised} returned")
             shw = lambda r: canon.show(r) if r["t"] != "exc" else r["v"]   # noqa
             if not ismod and not canon.same(res["A"], res["B"]):
                 bad = (f"the interpreter that ran the whole history returns {shw(res['A'])}, a fresh interpreter loaded with the same "
@@ -211,7 +219,7 @@ def run(tier, seed):
     ev.cov["traces_validated_against_impl"] = len(behs)
     ev.cov["distinct_nontrivial"] = sum(1 for h in behs if len({s["i"] for s in h}) >= 2)
     ev.cov["behaviours"] = len(behs)
-    ev.cov["rule"] = (f"statement histories of KgMachine.tla over an alphabet of 39 statements (incl. module entry/exit and amend-in-depth of mixed lists): the complete tree to depth {depth} and "
+    ev.cov["rule"] = (f"statement histories of KgMachine.tla over an alphabet of 41 statements (incl. module entry/exit and amend-in-depth of mixed lists): the complete tree to depth {depth} and "
                       f"seeded -simulate behaviours of length 9; every step executed in A (whole history) and B (fresh, pre-state "
                       f"loaded); non-trivial = at least two different statements")
     ev.sample({"history": [render_stmt(x["stmt"]) for x in behs[0]], "values": [canon.show(x["val"]) for x in behs[0]]})
